@@ -1,5 +1,6 @@
-(* C09 — proofs about the in-memory model: under the hypothesis [calm] the
-   model's trace is the abstract book's trace. *)
+(* C09 — proofs about the in-memory model (repaired tree): the abstraction
+   m_abs commutes with every operation, for every history whose clock only
+   moves forward and stays below ConnectedAddrTTL. *)
 From Coq Require Import List ZArith Bool Lia.
 From Verif Require Import lib.Wire gen.Consts_c09 c09.Abs c09.Model_mem c09.Model_ds c09.Spec.
 Import ListNotations.
@@ -35,7 +36,6 @@ Definition recs_ok (ents : list aent) (recs : list arec) : Prop :=
   forall r, In r recs -> has_peer (rp r) ents = true.
 Definition conn_far (l : list aent) : Prop :=
   forall e, In e l -> conn (ettl e) = true -> ConnectedAddrTTL <= eexp e.
-Definition recs_plain (recs : list arec) : Prop := forall r, In r recs -> sfx_free (raddrs r) = true.
 
 Lemma pa_update_flag_eq e h : pa_update_flag e h = negb (conn (ettl e)).
 Proof. unfold pa_update_flag. destruct h, (conn (ettl e)); reflexivity. Qed.
@@ -313,21 +313,19 @@ Definition upd_map (p old new now : Z) (e : aent) : aent :=
   if (ep e =? p) && (ettl e =? old) then mkE (ep e) (ea e) new (now + new) else e.
 
 Lemma erase_update p old new now l :
-  0 <= new -> all_live now (erase l) ->
-  erase (m_update_ents p old new (now + new) l) = filter (live now) (map (upd_map p old new now) (erase l)).
+  filter (live now) (erase (m_update_ents p old new (now + new) l)) =
+  filter (live now) (map (upd_map p old new now) (erase l)).
 Proof.
-  intros Hn. induction l as [|x r IH]; intros Hl; cbn [m_update_ents erase map filter]; [reflexivity|].
-  assert (Hr : all_live now (erase r)) by (intros e He; apply Hl; now right).
+  induction l as [|x r IH]; cbn [m_update_ents erase map filter]; [reflexivity|].
   destruct ((ep (me x) =? p) && (ettl (me x) =? old)) eqn:C.
   - assert (U : upd_map p old new now (me x) = mkE (ep (me x)) (ea (me x)) new (now + new))
       by (unfold upd_map; now rewrite C).
     rewrite U. destruct (Z.eqb_spec new 0) as [->|Hne].
-    + unfold live at 1. cbn [eexp]. replace (now <? now + 0) with false by (symmetry; apply Z.ltb_ge; lia).
-      now apply IH.
-    + unfold live at 1. cbn [eexp]. replace (now <? now + new) with true by (symmetry; apply Z.ltb_lt; lia).
-      cbn [map me]. f_equal. now apply IH.
+    + unfold live at 2. cbn [eexp]. replace (now <? now + 0) with false by (symmetry; apply Z.ltb_ge; lia).
+      exact IH.
+    + cbn [map me filter]. fold (erase (m_update_ents p old new (now + new) r)). now rewrite IH.
   - assert (U : upd_map p old new now (me x) = me x) by (unfold upd_map; now rewrite C).
-    rewrite U. rewrite (Hl (me x) (or_introl eq_refl)). cbn [map]. f_equal. now apply IH.
+    rewrite U. cbn [map filter]. fold (erase (m_update_ents p old new (now + new) r)). now rewrite IH.
 Qed.
 
 Lemma flags_update p old new exp l : flags_ok l -> flags_ok (m_update_ents p old new exp l).
@@ -340,47 +338,7 @@ Proof.
   - intros y [<-|Hy]; [apply H; now left|now apply IH].
 Qed.
 
-Lemma update_good p old new now l :
-  0 <= now -> (forall e, In e l -> entry_good now e) ->
-  forall e, In e (filter (live now) (map (upd_map p old new now) l)) -> entry_good now e.
-Proof.
-  intros Hn H e He. apply filter_In in He. destruct He as [He Hlive].
-  apply in_map_iff in He. destruct He as [e0 [<- H0]]. unfold upd_map in *.
-  destruct ((ep e0 =? p) && (ettl e0 =? old)); [|now apply H].
-  split; [exact Hlive|]. unfold live, conn in *. cbn in *. intros Hc. apply Z.leb_le in Hc. lia.
-Qed.
-
-Lemma has_peer_filter_map_other q p old new now l :
-  q <> p -> all_live now l ->
-  has_peer q (filter (live now) (map (upd_map p old new now) l)) = has_peer q l.
-Proof.
-  intros Hq. unfold has_peer. induction l as [|x r IH]; intros Hl; cbn [map filter existsb]; [reflexivity|].
-  assert (Hr : all_live now r) by (intros e He; apply Hl; now right).
-  assert (Hep : ep (upd_map p old new now x) = ep x)
-    by (unfold upd_map; destruct ((ep x =? p) && (ettl x =? old)); reflexivity).
-  destruct (live now (upd_map p old new now x)) eqn:L; cbn [existsb].
-  - rewrite Hep, (IH Hr). reflexivity.
-  - assert (Eq : (ep x =? q) = false).
-    { unfold upd_map in L. destruct ((ep x =? p) && (ettl x =? old)) eqn:C.
-      - apply andb_true_iff in C. destruct C as [C _]. apply Z.eqb_eq in C. apply Z.eqb_neq. congruence.
-      - rewrite (Hl x (or_introl eq_refl)) in L. discriminate. }
-    rewrite Eq, (IH Hr). reflexivity.
-Qed.
-
 (* ---- ConsumePeerRecord: eviction ------------------------------------------- *)
-Lemma clean_sfx_free l : sfx_free l = true -> clean_addrs l = map fst l.
-Proof.
-  unfold sfx_free, clean_addrs. induction l as [|r t IH]; cbn [forallb filter map]; [reflexivity|].
-  rewrite andb_true_iff. intros [H1 H2]. apply Z.eqb_eq in H1. rewrite H1. cbn. f_equal. now apply IH.
-Qed.
-
-Lemma raw_mem_plain a new : snd a = 0 -> sfx_free new = true -> raw_mem a new = zmem (fst a) (map fst new).
-Proof.
-  intros Ha. unfold raw_mem, zmem, sfx_free. induction new as [|r t IH]; cbn [existsb forallb map]; [reflexivity|].
-  rewrite andb_true_iff. intros [H1 H2]. apply Z.eqb_eq in H1. rewrite (IH H2).
-  unfold raw_eqb. rewrite Ha, H1. cbn. now rewrite andb_true_r.
-Qed.
-
 Lemma find_erase (f : aent -> bool) l : option_map me (find (fun x => f (me x)) l) = find f (erase l).
 Proof. induction l as [|x r IH]; cbn; [reflexivity|]. destruct (f (me x)); [reflexivity|exact IH]. Qed.
 
@@ -388,16 +346,13 @@ Lemma erase_pa_delete p a l : erase (pa_delete p a l) = remove_ent p a (erase l)
 Proof. unfold pa_delete, remove_ent, erase. apply (map_filter_comm me (fun e => negb (key_is p a e))). Qed.
 
 Lemma erase_evict p prev new l :
-  sfx_free prev = true -> sfx_free new = true ->
-  erase (m_evict p prev new l) = evict_superseded p (map fst prev) (map fst new) (erase l).
+  erase (m_evict p prev new l) = evict_superseded p prev new (erase l).
 Proof.
-  intros Hp Hn. unfold m_evict, evict_superseded. revert l.
-  induction prev as [|a t IH]; intros l; cbn [fold_left map]; [reflexivity|].
-  cbn [sfx_free forallb] in Hp. apply andb_true_iff in Hp. destruct Hp as [Ha Ht]. apply Z.eqb_eq in Ha.
-  rewrite (IH Ht). f_equal. rewrite (raw_mem_plain a new Ha Hn).
-  destruct (zmem (fst a) (map fst new)); [reflexivity|].
-  rewrite Ha. cbn [Z.eqb negb]. unfold find_ent. rewrite <- (find_erase (key_is p (fst a)) l).
-  destruct (find (fun x => key_is p (fst a) (me x)) l) as [x|]; cbn [option_map]; [|reflexivity].
+  unfold m_evict, evict_superseded. revert l.
+  induction prev as [|a t IH]; intros l; cbn [fold_left]; [reflexivity|].
+  rewrite IH. f_equal. destruct (zmem a new); [reflexivity|].
+  unfold find_ent. rewrite <- (find_erase (key_is p a) l).
+  destruct (find (fun x => key_is p a (me x)) l) as [x|]; cbn [option_map]; [|reflexivity].
   destruct (conn (ettl (me x))); [reflexivity|]. apply erase_pa_delete.
 Qed.
 
@@ -407,7 +362,7 @@ Proof. intros H x Hx. apply filter_In in Hx. now apply H. Qed.
 Lemma flags_evict p prev new l : flags_ok l -> flags_ok (m_evict p prev new l).
 Proof.
   unfold m_evict. revert l. induction prev as [|a t IH]; intros l H; cbn [fold_left]; [exact H|].
-  apply IH. destruct (raw_mem a new); [exact H|]. destruct (negb (snd a =? 0)); [exact H|].
+  apply IH. destruct (zmem a new); [exact H|].
   destruct (find _ l) as [x|]; [|exact H]. destruct (conn _); [exact H|]. now apply flags_filter.
 Qed.
 
@@ -427,238 +382,697 @@ Proof.
   replace (remove_ent p a l) with (a_set_one p a 0 0 l) by reflexivity. now apply has_peer_other_set_one.
 Qed.
 
-(* ---- the coupling between the in-memory model and the abstract book --------- *)
-Record Rel (m : mbook) (a : abook) : Prop := mkRel {
-  R_now : m_now m = a_now a;
-  R_ents : erase (m_ents m) = a_ents a;
-  R_recs : m_recs m = a_recs a;
-  R_flags : flags_ok (m_ents m);
-  R_good : forall e, In e (a_ents a) -> entry_good (a_now a) e;
-  R_recsok : recs_ok (a_ents a) (a_recs a);
-  R_plain : recs_plain (a_recs a);
-  R_nonneg : 0 <= a_now a
-}.
 
-Lemma Rel_init : Rel m_init a_init.
-Proof. constructor; cbn; try reflexivity; try (intros ? []); lia. Qed.
+(* ---- live part of a list; operations commute with it once p is purged --------- *)
+Definition Ls (now : Z) (l : list aent) : list aent := filter (live now) l.
+(* p has no expired entry in l (what purgeExpiredUnlocked establishes) *)
+Definition pclean (now p : Z) (l : list aent) : Prop := forall e, In e l -> ep e = p -> live now e = true.
 
-(* the hypothesis on a single operation (clock advances are treated with the GC run that must follow them) *)
-Definition op_calm (o : op) : bool :=
-  match o with
-  | OUpdate _ _ new => 0 <=? new
-  | OConsume _ _ _ _ _ l => sfx_free l
-  | OAdvance _ => false
-  | _ => true
-  end.
-
-Definition norm_obs (x : obs) : obs := match x with OSizes a b _ => OSizes a b 0 | _ => x end.
-
-Lemma mk_norm_id now ents recs :
-  (forall e, In e ents -> entry_good now e) -> recs_ok ents recs -> mk_norm now ents recs = mkA now ents recs.
+Lemma filter_filter {A} (f g : A -> bool) l : filter f (filter g l) = filter (fun x => g x && f x) l.
 Proof.
-  intros Hg Hr. unfold mk_norm. rewrite normalize_id; [reflexivity| |exact Hr].
-  intros e He. apply (Hg e He).
+  induction l as [|x r IH]; cbn [filter]; [reflexivity|].
+  destruct (g x); cbn [filter andb]; [destruct (f x)|]; now rewrite IH.
 Qed.
 
-Lemma mk_norm_recs p now ents recs :
-  (forall e, In e ents -> entry_good now e) ->
-  (forall r, In r recs -> rp r <> p -> has_peer (rp r) ents = true) ->
-  mk_norm now ents recs = mkA now ents (if has_peer p ents then recs else remove_rec p recs).
+Lemma Ls_idem now l : Ls now (Ls now l) = Ls now l.
+Proof. unfold Ls. rewrite filter_filter. apply filter_ext. intros e. now rewrite andb_diag. Qed.
+
+Lemma pclean_Ls now p l : pclean now p (Ls now l).
+Proof. intros e He _. unfold Ls in He. apply filter_In in He. tauto. Qed.
+
+Lemma pclean_tail now p x r : pclean now p (x :: r) -> pclean now p r.
+Proof. intros H e He. apply H. now right. Qed.
+
+Lemma has_peer_pclean now p l : pclean now p l -> has_peer p (Ls now l) = has_peer p l.
 Proof.
-  intros Hg Hr. unfold mk_norm, normalize.
-  rewrite (filter_id (live now) ents) by (intros e He; apply (Hg e He)).
-  now rewrite (filter_recs p ents recs Hr).
+  unfold has_peer, Ls. induction l as [|x r IH]; intros H; cbn [filter existsb]; [reflexivity|].
+  specialize (IH (pclean_tail _ _ _ _ H)).
+  destruct (ep x =? p) eqn:E.
+  - apply Z.eqb_eq in E. rewrite (H x (or_introl eq_refl) E). cbn [existsb]. apply Z.eqb_eq in E. now rewrite E.
+  - destruct (live now x); cbn [existsb]; rewrite ?E; exact IH.
 Qed.
 
-Lemma recs_ok_after p ents' recs :
-  (forall r, In r recs -> rp r <> p -> has_peer (rp r) ents' = true) ->
-  recs_ok ents' (if has_peer p ents' then recs else remove_rec p recs).
+Lemma has_peer_Ls_true now q l : has_peer q (Ls now l) = true -> has_peer q l = true.
 Proof.
-  intros H r Hr. destruct (has_peer p ents') eqn:E.
-  - destruct (Z.eq_dec (rp r) p) as [->|Hne]; [exact E|now apply H].
-  - unfold remove_rec in Hr. apply filter_In in Hr. destruct Hr as [Hin Hne].
-    apply negb_true_iff, Z.eqb_neq in Hne. now apply H.
+  unfold has_peer, Ls. rewrite !existsb_exists. intros [e [He Hq]]. apply filter_In in He. exists e. tauto.
 Qed.
 
-Lemma plain_sub recs recs' : recs_plain recs -> (forall r, In r recs' -> In r recs) -> recs_plain recs'.
-Proof. intros H Hs r Hr. apply H. now apply Hs. Qed.
+(* upsert_ext *)
+Lemma Ls_upsert_ext now p a ttl exp l :
+  pclean now p l -> now < exp ->
+  Ls now (upsert_ext p a ttl exp l) = upsert_ext p a ttl exp (Ls now l).
+Proof.
+  intros Hc Hx. unfold Ls. induction l as [|x r IH]; cbn [upsert_ext filter].
+  - unfold live at 1. cbn [eexp]. now replace (now <? exp) with true by (symmetry; apply Z.ltb_lt; lia).
+  - specialize (IH (pclean_tail _ _ _ _ Hc)). destruct (key_is p a x) eqn:K.
+    + destruct (key_is_eq _ _ _ K) as [Hp _]. rewrite (Hc x (or_introl eq_refl) Hp).
+      cbn [filter upsert_ext]. rewrite K. unfold live at 1. cbn [eexp].
+      replace (now <? Z.max (eexp x) exp) with true by (symmetry; apply Z.ltb_lt; lia). reflexivity.
+    + cbn [filter]. destruct (live now x); cbn [upsert_ext]; rewrite ?K, IH; reflexivity.
+Qed.
 
-Lemma in_if_remove p (b : bool) recs r : In r (if b then recs else remove_rec p recs) -> In r recs.
-Proof. destruct b; [tauto|]. unfold remove_rec. intros H. now apply filter_In in H. Qed.
+Lemma pclean_upsert_ext now p a ttl exp l :
+  pclean now p l -> now < exp -> pclean now p (upsert_ext p a ttl exp l).
+Proof.
+  intros Hc Hx e He Hp. destruct (upsert_ext_in _ _ _ _ _ _ He) as [H|[[e0 [H0 [K ->]]]| ->]].
+  - now apply Hc.
+  - destruct (key_is_eq _ _ _ K) as [Hp0 _]. specialize (Hc e0 H0 Hp0). unfold live in *. cbn.
+    apply Z.ltb_lt in Hc. apply Z.ltb_lt. lia.
+  - unfold live. cbn. apply Z.ltb_lt. lia.
+Qed.
+
+Lemma Ls_add_list now p ttl addrs l :
+  pclean now p l -> 0 < ttl ->
+  Ls now (add_list p ttl now addrs l) = add_list p ttl now addrs (Ls now l) /\
+  pclean now p (add_list p ttl now addrs l).
+Proof.
+  intros Hc Ht. unfold add_list. revert l Hc. induction addrs as [|a t IH]; intros l Hc; cbn [fold_left]; [tauto|].
+  destruct (IH (upsert_ext p a ttl (now + ttl) l)) as [E P]; [apply pclean_upsert_ext; [exact Hc|lia]|].
+  split; [|exact P]. rewrite E. f_equal. apply Ls_upsert_ext; [exact Hc|lia].
+Qed.
+
+(* a_set_one *)
+Lemma Ls_remove_ent now p a l : Ls now (remove_ent p a l) = remove_ent p a (Ls now l).
+Proof. unfold Ls, remove_ent. rewrite !filter_filter. apply filter_ext. intros e. apply andb_comm. Qed.
+
+Lemma Ls_set_one now p a ttl exp l :
+  pclean now p l -> (0 < ttl -> now < exp) ->
+  Ls now (a_set_one p a ttl exp l) = a_set_one p a ttl exp (Ls now l).
+Proof.
+  intros Hc Hx. unfold a_set_one. destruct (Z.ltb_spec 0 ttl) as [Ht|Ht]; [|apply Ls_remove_ent].
+  specialize (Hx Ht). unfold Ls. induction l as [|x r IH]; cbn [upsert_set filter].
+  - unfold live at 1. cbn [eexp]. now replace (now <? exp) with true by (symmetry; apply Z.ltb_lt; lia).
+  - specialize (IH (pclean_tail _ _ _ _ Hc)). destruct (key_is p a x) eqn:K.
+    + destruct (key_is_eq _ _ _ K) as [Hp _]. rewrite (Hc x (or_introl eq_refl) Hp).
+      cbn [filter upsert_set]. rewrite K. unfold live at 1. cbn [eexp].
+      replace (now <? exp) with true by (symmetry; apply Z.ltb_lt; lia). reflexivity.
+    + cbn [filter]. destruct (live now x); cbn [upsert_set]; rewrite ?K, IH; reflexivity.
+Qed.
+
+Lemma pclean_set_one now p a ttl exp l :
+  pclean now p l -> (0 < ttl -> now < exp) -> pclean now p (a_set_one p a ttl exp l).
+Proof.
+  intros Hc Hx e He Hp. destruct (a_set_one_in _ _ _ _ _ _ He) as [H|[Ht ->]]; [now apply Hc|].
+  unfold live. cbn. apply Z.ltb_lt. auto.
+Qed.
+
+Lemma Ls_set_fold now p ttl addrs l :
+  pclean now p l ->
+  Ls now (set_fold_a p ttl (now + ttl) addrs l) = set_fold_a p ttl (now + ttl) addrs (Ls now l) /\
+  pclean now p (set_fold_a p ttl (now + ttl) addrs l).
+Proof.
+  unfold set_fold_a. revert l. induction addrs as [|a t IH]; intros l Hc; cbn [fold_left]; [tauto|].
+  destruct (IH (a_set_one p a ttl (now + ttl) l)) as [E P]; [apply pclean_set_one; [exact Hc|lia]|].
+  split; [|exact P]. rewrite E. f_equal. apply Ls_set_one; [exact Hc|lia].
+Qed.
+
+(* UpdateAddrs *)
+Lemma Ls_upd now p old new l :
+  pclean now p l -> Ls now (map (upd_map p old new now) l) = Ls now (map (upd_map p old new now) (Ls now l)).
+Proof.
+  intros Hc. unfold Ls. induction l as [|x r IH]; cbn [map filter]; [reflexivity|].
+  specialize (IH (pclean_tail _ _ _ _ Hc)).
+  destruct (live now x) eqn:L; cbn [map filter]; [now rewrite IH|].
+  assert (U : upd_map p old new now x = x).
+  { unfold upd_map. destruct (ep x =? p) eqn:E; [|reflexivity]. apply Z.eqb_eq in E.
+    rewrite (Hc x (or_introl eq_refl) E) in L. discriminate. }
+  rewrite U, L. exact IH.
+Qed.
+
+Lemma has_peer_other_upd now q p old new l :
+  q <> p -> has_peer q (Ls now (map (upd_map p old new now) l)) = has_peer q (Ls now l).
+Proof.
+  intros Hq. unfold has_peer, Ls. induction l as [|x r IH]; cbn [map filter existsb]; [reflexivity|].
+  unfold upd_map at 1 2. destruct ((ep x =? p) && (ettl x =? old)) eqn:C.
+  - apply andb_true_iff in C. destruct C as [C _]. apply Z.eqb_eq in C.
+    assert (Eq : (ep x =? q) = false) by (apply Z.eqb_neq; congruence).
+    destruct (live now _), (live now x); cbn [existsb ep]; rewrite ?Eq; exact IH.
+  - destruct (live now x); cbn [existsb]; now rewrite IH.
+Qed.
+
+(* eviction *)
+Lemma find_ent_Ls now p a l : pclean now p l -> find_ent p a (Ls now l) = find_ent p a l.
+Proof.
+  intros Hc. unfold find_ent, Ls. induction l as [|x r IH]; cbn [filter find]; [reflexivity|].
+  specialize (IH (pclean_tail _ _ _ _ Hc)). destruct (key_is p a x) eqn:K.
+  - destruct (key_is_eq _ _ _ K) as [Hp _]. rewrite (Hc x (or_introl eq_refl) Hp). cbn [find]. now rewrite K.
+  - destruct (live now x); cbn [find]; rewrite ?K; exact IH.
+Qed.
+
+Lemma Ls_evict now p prev new l :
+  pclean now p l ->
+  Ls now (evict_superseded p prev new l) = evict_superseded p prev new (Ls now l) /\
+  pclean now p (evict_superseded p prev new l).
+Proof.
+  unfold evict_superseded. revert l. induction prev as [|a t IH]; intros l Hc; cbn [fold_left]; [tauto|].
+  destruct (zmem a new); [apply IH; exact Hc|].
+  rewrite (find_ent_Ls now p a l Hc). destruct (find_ent p a l) as [e|]; [|apply IH; exact Hc].
+  destruct (conn (ettl e)); [apply IH; exact Hc|].
+  destruct (IH (remove_ent p a l)) as [E P].
+  { intros x Hx. unfold remove_ent in Hx. apply filter_In in Hx. now apply Hc. }
+  split; [|exact P]. rewrite E. now rewrite Ls_remove_ent.
+Qed.
+
+(* ---- records ------------------------------------------------------------------- *)
+Definition hp (l : list aent) (r : arec) : bool := has_peer (rp r) l.
+
+Lemma filter_cond {A} (f g : A -> bool) l :
+  (forall x, In x l -> f x = true -> g x = true) -> filter f (filter g l) = filter f l.
+Proof.
+  intros H. rewrite filter_filter. apply filter_ext_in. intros x Hx.
+  destruct (f x) eqn:F; [now rewrite (H x Hx F)|apply andb_false_r].
+Qed.
+
+Lemma filter_remove_rec (f : arec -> bool) p recs :
+  (forall r, rp r = p -> f r = false) -> filter f (remove_rec p recs) = filter f recs.
+Proof.
+  intros H. unfold remove_rec. rewrite filter_filter. apply filter_ext. intros r.
+  destruct (rp r =? p) eqn:E; [apply Z.eqb_eq in E; now rewrite (H r E)|reflexivity].
+Qed.
 
 Lemma maybe_delete_eq p ments recs :
   maybe_delete_rec p ments recs = if has_peer p (erase ments) then recs else remove_rec p recs.
 Proof. unfold maybe_delete_rec. now rewrite has_peer_erase. Qed.
 
-(* one calm operation: same answer, coupling preserved *)
-Lemma step_calm m a o :
-  Rel m a -> op_calm o = true ->
-  Rel (fst (m_step m o)) (fst (a_step a o)) /\ norm_obs (snd (m_step m o)) = norm_obs (snd (a_step a o)).
+(* the abstraction forgets a record that maybeDelete would drop *)
+Lemma abs_recs_md now p ments recs :
+  filter (hp (Ls now (erase ments))) (maybe_delete_rec p ments recs) = filter (hp (Ls now (erase ments))) recs.
 Proof.
-  intros [Hnow Hents Hrecs Hfl Hgood Hrok Hplain Hnn] Hc.
-  destruct m as [mnow ments mrecs]. destruct a as [now ents recs].
-  cbn [m_now m_ents m_recs a_now a_ents a_recs] in *. subst mnow mrecs.
-  destruct o as [p ttl l|p ttl l|p old new|p|p seq id ttl bad l|p| |p|d| |]; cbn [m_step a_step fst snd op_calm] in *.
-  - (* AddAddrs *)
-    split; [|reflexivity]. unfold m_add_unlocked, a_add. cbn [m_now m_ents m_recs a_now a_ents a_recs].
-    destruct (Z.leb_spec ttl 0) as [Ht|Ht].
-    + rewrite maybe_delete_eq, Hents.
-      assert (E : (if has_peer p ents then recs else remove_rec p recs) = recs).
-      { destruct (has_peer p ents) eqn:H; [reflexivity|]. apply remove_rec_absent. now apply (recs_ok_no_rec ents). }
-      rewrite E. constructor; cbn; auto.
-    + fold (add_fold_m p ttl (now + ttl) l ments).
-      pose proof (erase_add_fold p ttl now l ments) as E. rewrite Hents in E.
-      assert (G : forall e, In e (add_list p ttl now (clean_addrs l) ents) -> entry_good now e)
-        by (apply add_list_good; auto).
-      assert (K : recs_ok (add_list p ttl now (clean_addrs l) ents) recs)
-        by (intros r Hr; apply has_peer_add_list; now apply Hrok).
-      rewrite (mk_norm_id _ _ _ G K). rewrite maybe_delete_eq, E.
-      assert (E2 : (if has_peer p (add_list p ttl now (clean_addrs l) ents) then recs else remove_rec p recs) = recs).
-      { destruct (has_peer p _) eqn:H; [reflexivity|]. apply remove_rec_absent. now apply (recs_ok_no_rec _ _ _ K). }
-      rewrite E2. constructor; cbn; auto. now apply flags_add_fold.
-  - (* SetAddrs *)
-    split; [|reflexivity]. unfold m_set. rewrite a_set_unfold. cbn [m_now m_ents m_recs a_now a_ents a_recs].
-    fold (set_fold_m p ttl (now + ttl) l ments).
-    pose proof (erase_set_fold p ttl (now + ttl) l ments) as E. rewrite Hents in E.
-    set (ents' := set_fold_a p ttl (now + ttl) (clean_addrs l) ents) in *.
-    assert (G : forall e, In e ents' -> entry_good now e) by (apply set_fold_good; auto).
-    assert (K : forall r, In r recs -> rp r <> p -> has_peer (rp r) ents' = true).
-    { intros r Hr Hne. unfold ents'. rewrite has_peer_other_set_fold by exact Hne. now apply Hrok. }
-    rewrite (mk_norm_recs p _ _ _ G K). rewrite maybe_delete_eq, E.
-    constructor; cbn; auto.
-    + now apply flags_set_fold.
-    + now apply recs_ok_after.
-    + eapply plain_sub; [exact Hplain|]. intros r. apply in_if_remove.
-  - (* UpdateAddrs, new >= 0 *)
-    apply Z.leb_le in Hc. split; [|reflexivity]. unfold m_update, a_update.
-    cbn [m_now m_ents m_recs a_now a_ents a_recs].
-    assert (Hl : all_live now (erase ments)) by (rewrite Hents; intros e He; apply (Hgood e He)).
-    pose proof (erase_update p old new now ments Hc Hl) as E. rewrite Hents in E.
-    fold (upd_map p old new now).
-    set (ents' := filter (live now) (map (upd_map p old new now) ents)) in *.
-    assert (G : forall e, In e ents' -> entry_good now e) by (apply update_good; auto).
-    assert (K : forall r, In r recs -> rp r <> p -> has_peer (rp r) ents' = true).
-    { intros r Hr Hne. unfold ents'. rewrite has_peer_filter_map_other; auto.
-      intros e He. apply (Hgood e He). }
-    assert (N : mk_norm now (map (upd_map p old new now) ents) recs =
-                mkA now ents' (if has_peer p ents' then recs else remove_rec p recs)).
-    { unfold mk_norm, normalize. fold ents'. now rewrite (filter_recs p ents' recs K). }
-    rewrite N, maybe_delete_eq, E. constructor; cbn; auto.
-    + now apply flags_update.
-    + now apply recs_ok_after.
-    + eapply plain_sub; [exact Hplain|]. intros r. apply in_if_remove.
-  - (* ClearAddrs *)
-    split; [|reflexivity]. unfold m_clear, a_clear. cbn [m_now m_ents m_recs a_now a_ents a_recs].
-    assert (E : erase (filter (fun x => negb (ep (me x) =? p)) ments) = filter (fun e => negb (ep e =? p)) ents).
-    { rewrite <- Hents. apply (map_filter_comm me (fun e => negb (ep e =? p))). }
-    constructor; cbn; auto.
-    + now apply flags_filter.
-    + intros e He. apply filter_In in He. now apply Hgood.
-    + intros r Hr. unfold remove_rec in Hr. apply filter_In in Hr. destruct Hr as [Hin Hne].
-      apply negb_true_iff, Z.eqb_neq in Hne.
-      replace (filter (fun e => negb (ep e =? p)) ents) with (a_set_one p 0 0 0 (filter (fun e => negb (ep e =? p)) ents)).
-      2:{ unfold a_set_one. cbn. unfold remove_ent. apply filter_id. intros x Hx. apply filter_In in Hx.
-          destruct Hx as [_ Hx]. unfold key_is. apply negb_true_iff in Hx. now rewrite Hx. }
-      clear E. specialize (Hrok r Hin). unfold has_peer in *.
-      rewrite existsb_exists in *. destruct Hrok as [x [Hx Hpx]]. exists x. split; [|exact Hpx].
-      unfold a_set_one. cbn. unfold remove_ent. apply filter_In. split.
-      * apply filter_In. split; [exact Hx|]. apply Z.eqb_eq in Hpx. apply negb_true_iff, Z.eqb_neq. congruence.
-      * unfold key_is. apply Z.eqb_eq in Hpx. apply negb_true_iff.
-        replace (ep x =? p) with false; [reflexivity|]. symmetry. apply Z.eqb_neq. congruence.
-    + eapply plain_sub; [exact Hplain|]. intros r Hr. unfold remove_rec in Hr. now apply filter_In in Hr.
-  - (* ConsumePeerRecord *)
-    destruct bad; [split; [constructor; cbn; auto|reflexivity]|].
-    unfold m_consume, a_consume. cbn [m_now m_ents m_recs a_now a_ents a_recs].
-    destruct (match find_rec p recs with Some r => seq <? rseq r | None => false end) eqn:Rej.
-    + cbn [fst snd]. split; [constructor; cbn; auto|reflexivity].
-    + cbn [fst snd]. split; [|reflexivity].
-      set (ments1 := match find_rec p recs with Some r => m_evict p (raddrs r) l ments | None => ments end).
-      set (ents1 := match find_rec p recs with
-                    | Some r => evict_superseded p (clean_addrs (raddrs r)) (clean_addrs l) ents
-                    | None => ents end).
-      assert (E1 : erase ments1 = ents1).
-      { unfold ments1, ents1. destruct (find_rec p recs) as [r|] eqn:F; [|exact Hents].
-        assert (Hr : sfx_free (raddrs r) = true).
-        { apply Hplain. unfold find_rec in F. apply find_some in F. tauto. }
-        rewrite (clean_sfx_free _ Hr), (clean_sfx_free _ Hc), <- Hents. now apply erase_evict. }
-      assert (F1 : flags_ok ments1).
-      { unfold ments1. destruct (find_rec p recs); [now apply flags_evict|exact Hfl]. }
-      assert (G1 : forall e, In e ents1 -> entry_good now e).
-      { unfold ents1. intros e He. destruct (find_rec p recs); [apply evict_sub in He|]; now apply Hgood. }
-      assert (O1 : forall q, q <> p -> has_peer q ents1 = has_peer q ents).
-      { intros q Hq. unfold ents1. destruct (find_rec p recs); [now apply has_peer_other_evict|reflexivity]. }
-      set (recs1 := set_rec (mkR p seq id l) recs).
-      assert (K1 : forall ents2, (forall q, q <> p -> has_peer q ents1 = true -> has_peer q ents2 = true) ->
-                   forall r, In r recs1 -> rp r <> p -> has_peer (rp r) ents2 = true).
-      { intros ents2 Hm r Hr Hne. unfold recs1, set_rec in Hr. apply in_app_or in Hr. destruct Hr as [Hr|[<-|[]]].
-        - cbn [rp] in Hr. unfold remove_rec in Hr. apply filter_In in Hr. destruct Hr as [Hin _].
-          apply Hm; [exact Hne|]. rewrite O1 by exact Hne. now apply Hrok.
-        - cbn in Hne. congruence. }
-      assert (P1 : recs_plain recs1).
-      { intros r Hr. unfold recs1, set_rec in Hr. apply in_app_or in Hr. destruct Hr as [Hr|[<-|[]]].
-        - unfold remove_rec in Hr. apply filter_In in Hr. now apply Hplain.
-        - exact Hc. }
-      unfold m_add_unlocked. cbn [m_now m_ents m_recs].
-      destruct (Z.leb_spec ttl 0) as [Ht|Ht].
-      * rewrite (mk_norm_recs p now ents1 recs1 G1 (K1 ents1 (fun q _ H => H))).
-        rewrite maybe_delete_eq, E1. constructor; cbn; auto.
-        -- apply recs_ok_after. apply (K1 ents1 (fun q _ H => H)).
-        -- eapply plain_sub; [exact P1|]. intros r. apply in_if_remove.
-      * fold (add_fold_m p ttl (now + ttl) l ments1).
-        pose proof (erase_add_fold p ttl now l ments1) as E2. rewrite E1 in E2.
-        set (ents2 := add_list p ttl now (clean_addrs l) ents1) in *.
-        assert (G2 : forall e, In e ents2 -> entry_good now e) by (apply add_list_good; auto).
-        assert (K2 : forall r, In r recs1 -> rp r <> p -> has_peer (rp r) ents2 = true).
-        { apply K1. intros q _ H. now apply has_peer_add_list. }
-        rewrite (mk_norm_recs p now ents2 recs1 G2 K2). rewrite maybe_delete_eq, E2.
-        constructor; cbn; auto.
-        -- now apply flags_add_fold.
-        -- now apply recs_ok_after.
-        -- eapply plain_sub; [exact P1|]. intros r. apply in_if_remove.
-  - (* Addrs *)
-    split; [constructor; cbn; auto|]. cbn [norm_obs]. f_equal. unfold m_addrs, a_addrs. cbn [m_now m_ents a_ents].
-    rewrite <- Hents. unfold erase.
-    rewrite <- (map_filter_comm me (fun e => ep e =? p)). rewrite map_map. f_equal.
-    apply filter_ext_in. intros x Hx.
-    assert (L : live now (me x) = true) by (apply Hgood; rewrite <- Hents; now apply in_map).
-    unfold expired_by. unfold live in L. rewrite L. cbn. now rewrite andb_true_r.
-  - (* PeersWithAddrs *)
-    split; [constructor; cbn; auto|]. cbn [norm_obs]. f_equal. unfold m_peers, a_peers. cbn [m_ents a_ents].
-    rewrite <- Hents. unfold erase. now rewrite map_map.
-  - (* GetPeerRecord *)
-    split; [constructor; cbn; auto|]. cbn [norm_obs]. f_equal. unfold m_getrec, a_getrec.
-    cbn [m_now m_ents m_recs a_recs]. rewrite has_peer_erase, Hents.
-    destruct (has_peer p ents) eqn:H; cbn [negb].
-    + assert (NE : m_addrs (mkMB now ments recs) p <> []).
-      { unfold has_peer in H. apply existsb_exists in H. destruct H as [e [He Hp]].
-        rewrite <- Hents in He. apply in_map_iff in He. destruct He as [x [<- Hx]].
-        unfold m_addrs. cbn [m_now m_ents]. intros Z0.
-        assert (In x (filter (fun x0 => (ep (me x0) =? p) && negb (expired_by now (me x0))) ments)).
-        { apply filter_In. split; [exact Hx|]. rewrite Hp. cbn.
-          assert (L : live now (me x) = true) by (apply Hgood; rewrite <- Hents; now apply in_map).
-          unfold expired_by. unfold live in L. now rewrite L. }
-        destruct (filter _ ments); [contradiction|discriminate]. }
-      destruct (m_addrs (mkMB now ments recs) p); [congruence|reflexivity].
-    + now rewrite (recs_ok_no_rec ents recs p Hrok H).
-  - discriminate.
-  - (* GC with nothing expired *)
-    assert (P : forall x, In x ments -> (mheap x && expired_by now (me x)) = false).
-    { intros x Hx. assert (L : live now (me x) = true) by (apply Hgood; rewrite <- Hents; now apply in_map).
-      unfold expired_by. unfold live in L. rewrite L. cbn. apply andb_false_r. }
-    assert (E : m_gc (mkMB now ments recs) = mkMB now ments recs).
-    { unfold m_gc. cbn [m_now m_ents m_recs].
-      rewrite (filter_id _ ments) by (intros x Hx; now rewrite (P x Hx)).
-      assert (Z0 : filter (fun x => mheap x && expired_by now (me x)) ments = []).
-      { clear -P. induction ments as [|x r IH]; cbn [filter]; [reflexivity|].
-        rewrite (P x (or_introl eq_refl)). apply IH. intros y Hy. apply P. now right. }
-      rewrite Z0. f_equal. apply filter_id. intros r _. reflexivity. }
-    rewrite E. cbn [fst snd]. split; [constructor; cbn; auto|]. cbn [norm_obs m_ents m_recs a_ents a_recs].
-    unfold zlen'. rewrite <- Hents. unfold erase. now rewrite map_length.
-  - (* reopen *)
-    split; [constructor; cbn; auto|reflexivity].
+  rewrite maybe_delete_eq. destruct (has_peer p (erase ments)) eqn:H; [reflexivity|].
+  apply filter_remove_rec. intros r Hr. unfold hp. rewrite Hr.
+  destruct (has_peer p (Ls now (erase ments))) eqn:K; [|reflexivity].
+  apply has_peer_Ls_true in K. congruence.
 Qed.
 
-(* ---- clock advance followed by a GC run -------------------------------------- *)
+Lemma find_rec_filter (f : arec -> bool) p recs :
+  (forall r, In r recs -> rp r = p -> f r = true) -> find_rec p (filter f recs) = find_rec p recs.
+Proof.
+  intros H. unfold find_rec. induction recs as [|r t IH]; cbn [filter find]; [reflexivity|].
+  assert (IH' := IH (fun r0 Hin => H r0 (or_intror Hin))). clear IH.
+  destruct (rp r =? p) eqn:E.
+  - apply Z.eqb_eq in E. rewrite (H r (or_introl eq_refl) E). cbn [find]. apply Z.eqb_eq in E. now rewrite E.
+  - destruct (f r); cbn [find]; rewrite ?E; exact IH'.
+Qed.
+
+Lemma filter_set_rec (f f2 : arec -> bool) r recs :
+  (forall r0, In r0 recs -> rp r0 <> rp r -> f2 r0 = true -> f r0 = true) ->
+  filter f2 (set_rec r (filter f recs)) = filter f2 (set_rec r recs).
+Proof.
+  intros H. unfold set_rec. rewrite !filter_app. f_equal.
+  unfold remove_rec. rewrite !filter_filter. apply filter_ext_in. intros x Hx.
+  destruct (rp x =? rp r) eqn:E; cbn [negb andb].
+  - now rewrite andb_false_r.
+  - apply Z.eqb_neq in E.
+    destruct (f2 x) eqn:F2; [now rewrite (H x Hx E F2)|apply andb_false_r].
+Qed.
+
+(* ---- the abstraction and the model invariant ------------------------------------- *)
+Lemma mk_norm_eq now X Y : mk_norm now X Y = mkA now (Ls now X) (filter (hp (Ls now X)) Y).
+Proof. reflexivity. Qed.
+
+Lemma m_abs_eq m : m_abs m = mkA (m_now m) (Ls (m_now m) (erase (m_ents m)))
+                              (filter (hp (Ls (m_now m) (erase (m_ents m)))) (m_recs m)).
+Proof. reflexivity. Qed.
+
+Definition far (e : aent) : Prop := conn (ettl e) = true -> ConnectedAddrTTL <= eexp e.
+
+Record Inv (m : mbook) : Prop := mkInv {
+  I_flags : flags_ok (m_ents m);
+  I_far : forall e, In e (erase (m_ents m)) -> far e;
+  I_recs : forall r, In r (m_recs m) -> has_peer (rp r) (erase (m_ents m)) = true;
+  I_now : 0 <= m_now m < ConnectedAddrTTL
+}.
+
+Lemma Inv_init : Inv m_init.
+Proof. constructor; cbn; try (intros ? []). split; [lia|reflexivity]. Qed.
+
+Lemma far_new now p a ttl : 0 <= now -> far (mkE p a ttl (now + ttl)).
+Proof. intros Hn. unfold far, conn. cbn. intros H. apply Z.leb_le in H. lia. Qed.
+
+Lemma far_upsert_ext now p a ttl l :
+  0 <= now -> (forall e, In e l -> far e) -> forall e, In e (upsert_ext p a ttl (now + ttl) l) -> far e.
+Proof.
+  intros Hn H e He. destruct (upsert_ext_in _ _ _ _ _ _ He) as [H1|[[e0 [H0 [_ ->]]]| ->]].
+  - now apply H.
+  - specialize (H e0 H0). unfold far, conn in *. cbn. intros Hc. apply Z.leb_le in Hc.
+    destruct (Z.le_gt_cases ConnectedAddrTTL (ettl e0)) as [Hc0|Hc0].
+    + assert (ConnectedAddrTTL <= eexp e0) by (apply H; now apply Z.leb_le). lia.
+    + lia.
+  - now apply far_new.
+Qed.
+
+Lemma far_add_list now p ttl addrs l :
+  0 <= now -> (forall e, In e l -> far e) -> forall e, In e (add_list p ttl now addrs l) -> far e.
+Proof.
+  intros Hn. unfold add_list. revert l. induction addrs as [|a t IH]; intros l H; cbn [fold_left]; [exact H|].
+  apply IH. now apply far_upsert_ext.
+Qed.
+
+Lemma far_set_fold now p ttl addrs l :
+  0 <= now -> (forall e, In e l -> far e) -> forall e, In e (set_fold_a p ttl (now + ttl) addrs l) -> far e.
+Proof.
+  intros Hn. unfold set_fold_a. revert l. induction addrs as [|a t IH]; intros l H; cbn [fold_left]; [exact H|].
+  apply IH. intros e He. destruct (a_set_one_in _ _ _ _ _ _ He) as [H1|[_ ->]]; [now apply H|now apply far_new].
+Qed.
+
+Lemma in_update_ents p old new exp l x' :
+  In x' (m_update_ents p old new exp l) ->
+  In x' l \/ (exists x, In x l /\ ep (me x) = p /\ me x' = mkE (ep (me x)) (ea (me x)) new exp).
+Proof.
+  induction l as [|x r IH]; cbn [m_update_ents]; [tauto|].
+  destruct ((ep (me x) =? p) && (ettl (me x) =? old)) eqn:C.
+  - apply andb_true_iff in C. destruct C as [C _]. apply Z.eqb_eq in C.
+    destruct (new =? 0).
+    + intros H. destruct (IH H) as [H1|[x0 [H1 H2]]]; [left; now right|right; exists x0; split; [now right|exact H2]].
+    + intros [<-|H].
+      * right. exists x. split; [now left|]. split; [exact C|reflexivity].
+      * destruct (IH H) as [H1|[x0 [H1 H2]]]; [left; now right|right; exists x0; split; [now right|exact H2]].
+  - intros [<-|H]; [left; now left|].
+    destruct (IH H) as [H1|[x0 [H1 H2]]]; [left; now right|right; exists x0; split; [now right|exact H2]].
+Qed.
+
+Lemma has_peer_other_update q p old new exp l :
+  q <> p -> has_peer q (erase (m_update_ents p old new exp l)) = has_peer q (erase l).
+Proof.
+  intros Hq. unfold has_peer, erase. induction l as [|x r IH]; cbn [m_update_ents map existsb]; [reflexivity|].
+  destruct ((ep (me x) =? p) && (ettl (me x) =? old)) eqn:C.
+  - apply andb_true_iff in C. destruct C as [C _]. apply Z.eqb_eq in C.
+    assert (Eq : (ep (me x) =? q) = false) by (apply Z.eqb_neq; congruence).
+    destruct (new =? 0); cbn [map existsb me ep]; rewrite Eq; exact IH.
+  - cbn [map existsb]. now rewrite IH.
+Qed.
+
+Lemma has_peer_other_add_list q p ttl now addrs l :
+  q <> p -> has_peer q (add_list p ttl now addrs l) = has_peer q l.
+Proof.
+  intros Hq. unfold add_list. revert l. induction addrs as [|a t IH]; intros l; cbn [fold_left]; [reflexivity|].
+  rewrite IH, has_peer_upsert_ext. apply Z.eqb_neq in Hq. now rewrite Hq, orb_false_r.
+Qed.
+
+(* the records of a model state whose entries for peers other than p kept their peers *)
+Lemma recs_inv_md p (ments : list ment) recs (E1 : list aent) :
+  (forall r, In r recs -> rp r <> p -> has_peer (rp r) E1 = true) ->
+  (forall q, q <> p -> has_peer q E1 = true -> has_peer q (erase ments) = true) ->
+  forall r, In r (maybe_delete_rec p ments recs) -> has_peer (rp r) (erase ments) = true.
+Proof.
+  intros H1 H2 r Hr. rewrite maybe_delete_eq in Hr. destruct (has_peer p (erase ments)) eqn:K.
+  - destruct (Z.eq_dec (rp r) p) as [->|Hne]; [exact K|]. apply H2; [exact Hne|now apply H1].
+  - unfold remove_rec in Hr. apply filter_In in Hr. destruct Hr as [Hin Hne].
+    apply negb_true_iff, Z.eqb_neq in Hne. apply H2; [exact Hne|now apply H1].
+Qed.
+
+(* ---- purgeExpiredUnlocked ---------------------------------------------------------- *)
+Lemma purge_spec m p :
+  Inv m ->
+  let m1 := m_purge m p in
+  Inv m1 /\ m_abs m1 = m_abs m /\ m_now m1 = m_now m /\
+  pclean (m_now m) p (erase (m_ents m1)) /\
+  (forall x, In x (m_ents m1) -> In x (m_ents m)) /\
+  (forall r, In r (m_recs m1) -> rp r = p -> hp (Ls (m_now m) (erase (m_ents m1))) r = true).
+Proof.
+  intros [Hf Hfar Hr Hn]. destruct m as [now ents recs]. cbn [m_now m_ents m_recs] in *.
+  unfold m_purge. cbn [m_now m_ents m_recs]. cbn zeta.
+  set (ents1 := filter (fun x => negb ((ep (me x) =? p) && expired_by now (me x))) ents).
+  assert (Sub : forall x, In x ents1 -> In x ents) by (intros x Hx; unfold ents1 in Hx; now apply filter_In in Hx).
+  assert (PC : pclean now p (erase ents1)).
+  { intros e He Hp. unfold erase in He. apply in_map_iff in He. destruct He as [x [<- Hx]].
+    unfold ents1 in Hx. apply filter_In in Hx. destruct Hx as [_ Hx]. apply Z.eqb_eq in Hp.
+    rewrite Hp in Hx. cbn [andb] in Hx. unfold expired_by in Hx. rewrite negb_involutive in Hx. exact Hx. }
+  assert (EL : Ls now (erase ents1) = Ls now (erase ents)).
+  { unfold ents1, erase, Ls.
+    rewrite (map_filter_comm me (fun e => negb ((ep e =? p) && expired_by now e))).
+    rewrite filter_filter. apply filter_ext. intros e. unfold expired_by, live.
+    destruct (now <? eexp e); [|apply andb_false_r]. cbn. now rewrite andb_false_r. }
+  assert (SubE : forall e, In e (erase ents1) -> In e (erase ents)).
+  { intros e He. unfold erase in *. apply in_map_iff in He. destruct He as [x [<- Hx]]. apply in_map. auto. }
+  split; [|split; [|split; [reflexivity|split; [exact PC|split; [exact Sub|]]]]].
+  - constructor; cbn [m_now m_ents m_recs]; auto.
+    + intros x Hx. apply Hf. auto.
+    + apply (recs_inv_md p ents1 recs (erase ents)).
+      * intros r Hin _. now apply Hr.
+      * intros q Hq Hh. unfold has_peer in *. rewrite existsb_exists in *. destruct Hh as [e [He Hpe]].
+        exists e. split; [|exact Hpe]. unfold erase in *. apply in_map_iff in He. destruct He as [x [<- Hx]].
+        apply in_map. unfold ents1. apply filter_In. split; [exact Hx|].
+        apply Z.eqb_eq in Hpe. replace (ep (me x) =? p) with false; [reflexivity|].
+        symmetry. apply Z.eqb_neq. congruence.
+  - rewrite !m_abs_eq. cbn [m_now m_ents m_recs]. rewrite EL. f_equal.
+    rewrite <- EL. apply abs_recs_md.
+  - intros r Hin Hp. rewrite maybe_delete_eq in Hin. unfold hp. rewrite Hp.
+    rewrite (has_peer_pclean now p _ PC). destruct (has_peer p (erase ents1)) eqn:K; [reflexivity|].
+    unfold remove_rec in Hin. apply filter_In in Hin. destruct Hin as [_ Hne].
+    apply negb_true_iff, Z.eqb_neq in Hne. congruence.
+Qed.
+
+(* ---- a write on peer p, on a purged state, commutes with the abstraction ------------ *)
+Lemma write_commute_plain now p ents1 ents2 recs1 X :
+  let L := Ls now (erase ents1) in
+  let L2 := Ls now (erase ents2) in
+  Ls now X = L2 ->
+  (forall q, q <> p -> has_peer q L2 = has_peer q L) ->
+  (forall r, In r recs1 -> rp r = p -> hp L r = true) ->
+  mk_norm now X (filter (hp L) recs1) = m_abs (mkMB now ents2 (maybe_delete_rec p ents2 recs1)).
+Proof.
+  cbn zeta. intros HX Ho Hp. rewrite mk_norm_eq, m_abs_eq. cbn [m_now m_ents m_recs]. rewrite HX. f_equal.
+  rewrite abs_recs_md. apply filter_cond. intros r Hin H2.
+  destruct (Z.eq_dec (rp r) p) as [E|E]; [now apply Hp|]. unfold hp in *. now rewrite <- (Ho _ E).
+Qed.
+
+Lemma write_commute_set now p ents1 ents2 recs1 X r :
+  let L := Ls now (erase ents1) in
+  let L2 := Ls now (erase ents2) in
+  rp r = p ->
+  Ls now X = L2 ->
+  (forall q, q <> p -> has_peer q L2 = has_peer q L) ->
+  mk_norm now X (set_rec r (filter (hp L) recs1)) =
+  m_abs (mkMB now ents2 (maybe_delete_rec p ents2 (set_rec r recs1))).
+Proof.
+  cbn zeta. intros Hr HX Ho. rewrite mk_norm_eq, m_abs_eq. cbn [m_now m_ents m_recs]. rewrite HX. f_equal.
+  rewrite abs_recs_md. apply filter_set_rec. intros r0 Hin Hne H2. rewrite Hr in Hne.
+  unfold hp in *. now rewrite <- (Ho _ Hne).
+Qed.
+
+Definition norm_obs (x : obs) : obs := match x with OSizes a b _ => OSizes a b 0 | _ => x end.
+
+Definition obs_rel (m : mbook) (o : op) (e x : obs) : Prop :=
+  match o with
+  | OPeers => e = OList (a_peers (m_abs m)) /\ x = OList (m_peers m)
+  | _ => norm_obs x = norm_obs e
+  end.
+
+Definition from_old (m m' : mbook) : Prop :=
+  forall e', In e' (erase (m_ents m')) ->
+    live (m_now m') e' = true \/ exists e0, In e0 (erase (m_ents m)) /\ ep e0 = ep e'.
+
+Definition step_ok (m : mbook) (o : op) : Prop :=
+  let '(m', x) := m_step m o in
+  let '(a', e) := a_step (m_abs m) o in
+  a' = m_abs m' /\ Inv m' /\ obs_rel m o e x /\ from_old m m'.
+
+Definition op_ok (now : Z) (o : op) : Prop :=
+  match o with OAdvance d => 0 <= d /\ now + d < ConnectedAddrTTL | _ => True end.
+
+Lemma erase_sub (l1 l2 : list ment) : (forall x, In x l1 -> In x l2) -> forall e, In e (erase l1) -> In e (erase l2).
+Proof. intros H e He. unfold erase in *. apply in_map_iff in He. destruct He as [x [<- Hx]]. apply in_map. auto. Qed.
+
+Lemma add_list_from now p ttl addrs l e :
+  0 < ttl -> In e (add_list p ttl now addrs l) -> In e l \/ live now e = true.
+Proof.
+  intros Ht. unfold add_list. revert l. induction addrs as [|a t IH]; intros l H; cbn [fold_left] in H; [now left|].
+  destruct (IH _ H) as [H1|H1]; [|now right].
+  destruct (upsert_ext_in _ _ _ _ _ _ H1) as [H2|[[e0 [_ [_ ->]]]| ->]]; [now left| |];
+    right; unfold live; cbn; apply Z.ltb_lt; lia.
+Qed.
+
+Lemma set_fold_from now p ttl addrs l e :
+  In e (set_fold_a p ttl (now + ttl) addrs l) -> In e l \/ live now e = true.
+Proof.
+  unfold set_fold_a. revert l. induction addrs as [|a t IH]; intros l H; cbn [fold_left] in H; [now left|].
+  destruct (IH _ H) as [H1|H1]; [|now right].
+  destruct (a_set_one_in _ _ _ _ _ _ H1) as [H2|[Ht ->]]; [now left|].
+  right. unfold live. cbn. apply Z.ltb_lt. lia.
+Qed.
+
+(* AddAddrs *)
+Lemma step_add m p ttl l : Inv m -> step_ok m (OAdd p ttl l).
+Proof.
+  intros HI. unfold step_ok. cbn [m_step a_step]. unfold m_add.
+  destruct (purge_spec m p HI) as [HI1 [HA [Hnow [PC [Sub Prec]]]]]. cbn zeta in *.
+  set (m1 := m_purge m p) in *. rewrite <- HA. clear HA.
+  destruct m1 as [now1 ents1 recs1] eqn:Em1. cbn [m_now m_ents m_recs] in *. subst now1.
+  set (now := m_now m) in *. destruct HI1 as [Hf Hfar Hr Hn]. cbn [m_now m_ents m_recs] in *.
+  unfold m_add_unlocked, a_add. rewrite m_abs_eq. cbn [m_now m_ents m_recs a_now a_ents a_recs].
+  set (L := Ls now (erase ents1)) in *.
+  destruct (Z.leb_spec ttl 0) as [Ht|Ht].
+  - split; [|split; [|split; [reflexivity|]]].
+    + rewrite m_abs_eq. cbn [m_now m_ents m_recs]. unfold L. f_equal. now rewrite abs_recs_md.
+    + constructor; cbn [m_now m_ents m_recs]; auto.
+      apply (recs_inv_md p ents1 recs1 (erase ents1)); auto.
+    + intros e' He'. right. exists e'. split; [|reflexivity]. cbn [m_ents] in He'. eapply erase_sub; eauto.
+  - fold (add_fold_m p ttl (now + ttl) l ents1).
+    set (ents2 := add_fold_m p ttl (now + ttl) l ents1).
+    assert (E2 : erase ents2 = add_list p ttl now (clean_addrs l) (erase ents1)) by apply erase_add_fold.
+    destruct (Ls_add_list now p ttl (clean_addrs l) (erase ents1) PC Ht) as [C1 _].
+    destruct (Ls_add_list now p ttl (clean_addrs l) L (pclean_Ls _ _ _) Ht) as [C2 _].
+    unfold L in C2 at 2. rewrite Ls_idem in C2. fold L in C2.
+    split; [|split; [|split; [reflexivity|]]].
+    + apply write_commute_plain.
+      * rewrite E2, C1. exact C2.
+      * intros q Hq. rewrite E2, C1. fold L. now apply has_peer_other_add_list.
+      * exact Prec.
+    + constructor; cbn [m_now m_ents m_recs]; auto.
+      * now apply flags_add_fold.
+      * rewrite E2. apply far_add_list; [lia|exact Hfar].
+      * apply (recs_inv_md p ents2 recs1 (erase ents1)); [intros r Hin _; now apply Hr|].
+        intros q Hq Hh. rewrite E2, has_peer_other_add_list; auto.
+    + intros e' He'. cbn [m_ents m_now] in *. rewrite E2 in He'.
+      destruct (add_list_from _ _ _ _ _ _ Ht He') as [H1|H1]; [|now left].
+      right. exists e'. split; [|reflexivity]. eapply erase_sub; eauto.
+Qed.
+
+(* SetAddrs *)
+Lemma step_set m p ttl l : Inv m -> step_ok m (OSet p ttl l).
+Proof.
+  intros HI. unfold step_ok. cbn [m_step a_step]. unfold m_set.
+  destruct (purge_spec m p HI) as [HI1 [HA [Hnow [PC [Sub Prec]]]]]. cbn zeta in *.
+  set (m1 := m_purge m p) in *. rewrite <- HA. clear HA.
+  destruct m1 as [now1 ents1 recs1] eqn:Em1. cbn [m_now m_ents m_recs] in *. subst now1.
+  set (now := m_now m) in *. destruct HI1 as [Hf Hfar Hr Hn]. cbn [m_now m_ents m_recs] in *.
+  rewrite a_set_unfold, m_abs_eq. cbn [m_now m_ents m_recs a_now a_ents a_recs].
+  set (L := Ls now (erase ents1)) in *.
+  fold (set_fold_m p ttl (now + ttl) l ents1). set (ents2 := set_fold_m p ttl (now + ttl) l ents1).
+  assert (E2 : erase ents2 = set_fold_a p ttl (now + ttl) (clean_addrs l) (erase ents1)) by apply erase_set_fold.
+  destruct (Ls_set_fold now p ttl (clean_addrs l) (erase ents1) PC) as [C1 _].
+  destruct (Ls_set_fold now p ttl (clean_addrs l) L (pclean_Ls _ _ _)) as [C2 _].
+  unfold L in C2 at 2. rewrite Ls_idem in C2. fold L in C2.
+  split; [|split; [|split; [reflexivity|]]].
+  - apply write_commute_plain.
+    + rewrite E2, C1. exact C2.
+    + intros q Hq. rewrite E2, C1. fold L. now apply has_peer_other_set_fold.
+    + exact Prec.
+  - constructor; cbn [m_now m_ents m_recs]; auto.
+    + now apply flags_set_fold.
+    + rewrite E2. apply far_set_fold; [lia|exact Hfar].
+    + apply (recs_inv_md p ents2 recs1 (erase ents1)); [intros r Hin _; now apply Hr|].
+      intros q Hq Hh. rewrite E2, has_peer_other_set_fold; auto.
+  - intros e' He'. cbn [m_ents m_now] in *. rewrite E2 in He'.
+    destruct (set_fold_from _ _ _ _ _ _ He') as [H1|H1]; [|now left].
+    right. exists e'. split; [|reflexivity]. eapply erase_sub; eauto.
+Qed.
+
+(* UpdateAddrs *)
+Lemma step_update m p old new : Inv m -> step_ok m (OUpdate p old new).
+Proof.
+  intros HI. unfold step_ok. cbn [m_step a_step]. unfold m_update.
+  destruct (purge_spec m p HI) as [HI1 [HA [Hnow [PC [Sub Prec]]]]]. cbn zeta in *.
+  set (m1 := m_purge m p) in *. rewrite <- HA. clear HA.
+  destruct m1 as [now1 ents1 recs1] eqn:Em1. cbn [m_now m_ents m_recs] in *. subst now1.
+  set (now := m_now m) in *. destruct HI1 as [Hf Hfar Hr Hn]. cbn [m_now m_ents m_recs] in *.
+  unfold a_update. rewrite m_abs_eq. cbn [m_now m_ents m_recs a_now a_ents a_recs].
+  set (L := Ls now (erase ents1)) in *. fold (upd_map p old new now).
+  set (ents2 := m_update_ents p old new (now + new) ents1).
+  assert (C1 : Ls now (erase ents2) = Ls now (map (upd_map p old new now) L)).
+  { unfold ents2, Ls at 1. rewrite erase_update. fold (Ls now (map (upd_map p old new now) (erase ents1))).
+    now rewrite (Ls_upd now p old new _ PC). }
+  split; [|split; [|split; [reflexivity|]]].
+  - apply write_commute_plain.
+    + now rewrite C1.
+    + intros q Hq. rewrite C1. rewrite has_peer_other_upd by exact Hq. unfold L. now rewrite Ls_idem.
+    + exact Prec.
+  - constructor; cbn [m_now m_ents m_recs]; auto.
+    + now apply flags_update.
+    + intros e He. unfold erase in He. apply in_map_iff in He. destruct He as [x' [<- Hx']].
+      destruct (in_update_ents _ _ _ _ _ _ Hx') as [H1|[x [H1 [_ ->]]]].
+      * apply Hfar. now apply in_map.
+      * apply far_new. lia.
+    + apply (recs_inv_md p ents2 recs1 (erase ents1)); [intros r Hin _; now apply Hr|].
+      intros q Hq Hh. unfold ents2. now rewrite has_peer_other_update.
+  - intros e' He'. cbn [m_ents m_now] in *. right. unfold erase in He'. apply in_map_iff in He'.
+    destruct He' as [x' [<- Hx']]. destruct (in_update_ents _ _ _ _ _ _ Hx') as [H1|[x [H1 [_ Hm]]]].
+    + exists (me x'). split; [|reflexivity]. apply (erase_sub ents1); [exact Sub|now apply in_map].
+    + exists (me x). split; [apply (erase_sub ents1); [exact Sub|now apply in_map]|]. now rewrite Hm.
+Qed.
+
+(* ConsumePeerRecord *)
+Lemma step_consume m p seq id ttl bad l : Inv m -> step_ok m (OConsume p seq id ttl bad l).
+Proof.
+  intros HI. unfold step_ok. cbn [m_step a_step].
+  destruct bad.
+  { split; [reflexivity|split; [exact HI|split; [reflexivity|]]].
+    intros e' He'. right. exists e'. tauto. }
+  unfold m_consume.
+  destruct (purge_spec m p HI) as [HI1 [HA [Hnow [PC [Sub Prec]]]]]. cbn zeta in *.
+  set (m1 := m_purge m p) in *. rewrite <- HA.
+  destruct m1 as [now1 ents1 recs1] eqn:Em1. cbn [m_now m_ents m_recs] in *. subst now1.
+  set (now := m_now m) in *. pose proof HI1 as [Hf Hfar Hr Hn]. cbn [m_now m_ents m_recs] in *.
+  unfold a_consume. rewrite m_abs_eq. cbn [m_now m_ents m_recs a_now a_ents a_recs].
+  set (L := Ls now (erase ents1)) in *.
+  rewrite (find_rec_filter (hp L) p recs1 Prec).
+  destruct (match find_rec p recs1 with Some r => seq <? rseq r | None => false end) eqn:Rej.
+  - (* rejected: the purged state *)
+    split; [|split; [exact HI1|split; [reflexivity|]]].
+    + rewrite m_abs_eq. reflexivity.
+    + intros e' He'. right. exists e'. split; [|reflexivity]. eapply erase_sub; eauto.
+  - set (ents1' := match find_rec p recs1 with
+                   | Some r => m_evict p (clean_addrs (raddrs r)) (clean_addrs l) ents1
+                   | None => ents1 end).
+    set (L1 := match find_rec p recs1 with
+               | Some r => evict_superseded p (clean_addrs (raddrs r)) (clean_addrs l) L
+               | None => L end).
+    assert (E1 : erase ents1' = match find_rec p recs1 with
+                                | Some r => evict_superseded p (clean_addrs (raddrs r)) (clean_addrs l) (erase ents1)
+                                | None => erase ents1 end).
+    { unfold ents1'. destruct (find_rec p recs1); [apply erase_evict|reflexivity]. }
+    assert (C1 : Ls now (erase ents1') = L1 /\ pclean now p (erase ents1')).
+    { rewrite E1. unfold L1. destruct (find_rec p recs1); [|split; [reflexivity|exact PC]].
+      now apply Ls_evict. }
+    destruct C1 as [C1 PC1].
+    assert (PL1 : pclean now p L1) by (rewrite <- C1; apply pclean_Ls).
+    assert (LL1 : Ls now L1 = L1) by (rewrite <- C1; apply Ls_idem).
+    assert (O1 : forall q, q <> p -> has_peer q L1 = has_peer q L).
+    { intros q Hq. unfold L1. destruct (find_rec p recs1); [now apply has_peer_other_evict|reflexivity]. }
+    assert (OE1 : forall q, q <> p -> has_peer q (erase ents1') = has_peer q (erase ents1)).
+    { intros q Hq. rewrite E1. destruct (find_rec p recs1); [now apply has_peer_other_evict|reflexivity]. }
+    assert (F1 : flags_ok ents1').
+    { unfold ents1'. destruct (find_rec p recs1); [now apply flags_evict|exact Hf]. }
+    assert (Far1 : forall e, In e (erase ents1') -> far e).
+    { intros e He. rewrite E1 in He. destruct (find_rec p recs1); [apply evict_sub in He|]; now apply Hfar. }
+    assert (S1 : forall e, In e (erase ents1') -> In e (erase ents1)).
+    { intros e He. rewrite E1 in He. destruct (find_rec p recs1); [now apply evict_sub in He|exact He]. }
+    unfold m_add_unlocked. cbn [m_now m_ents m_recs fst snd].
+    set (r := mkR p seq id l).
+    assert (RI : forall ents2, (forall q, q <> p -> has_peer q (erase ents1) = true -> has_peer q (erase ents2) = true) ->
+                 forall r0, In r0 (maybe_delete_rec p ents2 (set_rec r recs1)) -> has_peer (rp r0) (erase ents2) = true).
+    { intros ents2 Hm. apply (recs_inv_md p ents2 (set_rec r recs1) (erase ents1)); [|exact Hm].
+      intros r0 Hin Hne. unfold set_rec in Hin. apply in_app_or in Hin. destruct Hin as [Hin|[<-|[]]].
+      - unfold remove_rec in Hin. apply filter_In in Hin. now apply Hr.
+      - cbn in Hne. congruence. }
+    destruct (Z.leb_spec ttl 0) as [Ht|Ht].
+    + split; [|split; [|split; [reflexivity|]]].
+      * apply (write_commute_set now p ents1 ents1' recs1 L1 r); [reflexivity|now rewrite C1|].
+        intros q Hq. rewrite C1. now apply O1.
+      * constructor; cbn [m_now m_ents m_recs]; auto.
+        apply RI. intros q Hq Hh. now rewrite OE1.
+      * intros e' He'. right. exists e'. split; [|reflexivity]. cbn [m_ents] in He'.
+        apply (erase_sub ents1); [exact Sub|now apply S1].
+    + fold (add_fold_m p ttl (now + ttl) l ents1').
+      set (ents2 := add_fold_m p ttl (now + ttl) l ents1').
+      assert (E2 : erase ents2 = add_list p ttl now (clean_addrs l) (erase ents1')) by apply erase_add_fold.
+      destruct (Ls_add_list now p ttl (clean_addrs l) (erase ents1') PC1 Ht) as [C2 _].
+      destruct (Ls_add_list now p ttl (clean_addrs l) L1 PL1 Ht) as [C3 _].
+      rewrite LL1 in C3. rewrite C1 in C2.
+      split; [|split; [|split; [reflexivity|]]].
+      * apply (write_commute_set now p ents1 ents2 recs1 (add_list p ttl now (clean_addrs l) L1) r); [reflexivity| |].
+        -- rewrite E2, C2. exact C3.
+        -- intros q Hq. rewrite E2, C2. rewrite has_peer_other_add_list by exact Hq. now apply O1.
+      * constructor; cbn [m_now m_ents m_recs]; auto.
+        -- now apply flags_add_fold.
+        -- rewrite E2. apply far_add_list; [lia|exact Far1].
+        -- apply RI. intros q Hq Hh. rewrite E2, has_peer_other_add_list by exact Hq. now rewrite OE1.
+      * intros e' He'. cbn [m_ents m_now] in *. rewrite E2 in He'.
+        destruct (add_list_from _ _ _ _ _ _ Ht He') as [H1|H1]; [|now left].
+        right. exists e'. split; [|reflexivity]. apply (erase_sub ents1); [exact Sub|now apply S1].
+Qed.
+
+(* ClearAddrs *)
+Lemma step_clear m p : Inv m -> step_ok m (OClear p).
+Proof.
+  intros HI. unfold step_ok. cbn [m_step a_step]. destruct HI as [Hf Hfar Hr Hn].
+  destruct m as [now ents recs]. cbn [m_now m_ents m_recs] in *.
+  unfold m_clear, a_clear. rewrite !m_abs_eq. cbn [m_now m_ents m_recs a_now a_ents a_recs].
+  set (notp := fun e : aent => negb (ep e =? p)).
+  assert (E : erase (filter (fun x => negb (ep (me x) =? p)) ents) = filter notp (erase ents))
+    by apply (map_filter_comm me notp).
+  assert (LE : Ls now (filter notp (erase ents)) = filter notp (Ls now (erase ents))).
+  { unfold Ls. rewrite !filter_filter. apply filter_ext. intros e. apply andb_comm. }
+  assert (HO : forall q l, q <> p -> has_peer q (filter notp l) = has_peer q l).
+  { intros q l Hq. replace (filter notp l) with (a_set_one p 0 0 0 (filter notp l)).
+    2:{ unfold a_set_one. cbn. unfold remove_ent. apply filter_id. intros x Hx. apply filter_In in Hx.
+        destruct Hx as [_ Hx]. unfold key_is, notp in *. apply negb_true_iff in Hx. now rewrite Hx. }
+    rewrite has_peer_other_set_one by exact Hq. clear -Hq. unfold has_peer, notp.
+    induction l as [|x r IH]; cbn [filter existsb]; [reflexivity|].
+    destruct (ep x =? p) eqn:E; cbn [negb existsb]; rewrite IH; [|reflexivity].
+    apply Z.eqb_eq in E. replace (ep x =? q) with false; [reflexivity|]. symmetry. apply Z.eqb_neq. congruence. }
+  split; [|split; [|split; [reflexivity|]]].
+  - rewrite E, LE. f_equal. unfold remove_rec. rewrite !filter_filter. apply filter_ext_in. intros r _.
+    destruct (rp r =? p) eqn:K; cbn [negb andb]; [now rewrite andb_false_r|].
+    rewrite andb_true_r. unfold hp. apply Z.eqb_neq in K. now rewrite HO.
+  - constructor; cbn [m_now m_ents m_recs]; auto.
+    + now apply flags_filter.
+    + intros e He. rewrite E in He. apply filter_In in He. now apply Hfar.
+    + intros r Hin. unfold remove_rec in Hin. apply filter_In in Hin. destruct Hin as [Hin Hne].
+      apply negb_true_iff, Z.eqb_neq in Hne. rewrite E, HO by exact Hne. now apply Hr.
+  - intros e' He'. cbn [m_ents] in *. right. exists e'. split; [|reflexivity]. rewrite E in He'.
+    now apply filter_In in He'.
+Qed.
+
+Lemma from_old_refl m : from_old m m.
+Proof. intros e' He'. right. exists e'. tauto. Qed.
+
+(* reads *)
+Lemma step_addrs m p : Inv m -> step_ok m (OAddrs p).
+Proof.
+  intros HI. unfold step_ok. cbn [m_step a_step].
+  split; [reflexivity|split; [exact HI|split; [|apply from_old_refl]]].
+  cbn [obs_rel norm_obs]. f_equal. unfold m_addrs, a_addrs. rewrite m_abs_eq. cbn [a_ents].
+  unfold Ls, erase. rewrite filter_filter. rewrite <- (map_filter_comm me (fun e => live (m_now m) e && (ep e =? p))).
+  rewrite map_map. f_equal. apply filter_ext. intros x. unfold expired_by, live.
+  rewrite negb_involutive. apply andb_comm.
+Qed.
+
+Lemma step_getrec m p : Inv m -> step_ok m (OGetRec p).
+Proof.
+  intros HI. unfold step_ok. cbn [m_step a_step].
+  split; [reflexivity|split; [exact HI|split; [|apply from_old_refl]]].
+  cbn [obs_rel norm_obs]. f_equal. unfold m_getrec, a_getrec. rewrite m_abs_eq. cbn [a_recs].
+  set (now := m_now m). set (L := Ls now (erase (m_ents m))).
+  assert (AL : m_addrs m p = map ea (filter (fun e => ep e =? p) L)).
+  { unfold m_addrs, L, Ls, erase. fold now. rewrite filter_filter.
+    rewrite <- (map_filter_comm me (fun e => live now e && (ep e =? p))). rewrite map_map. f_equal.
+    apply filter_ext. intros x. unfold expired_by, live. rewrite negb_involutive. apply andb_comm. }
+  assert (HP : has_peer p L = negb (match filter (fun e => ep e =? p) L with [] => true | _ => false end)).
+  { unfold has_peer. clear. induction L as [|x r IH]; cbn [existsb filter]; [reflexivity|].
+    destruct (ep x =? p); [reflexivity|exact IH]. }
+  destruct (has_peer p L) eqn:K.
+  - rewrite (find_rec_filter (hp L) p (m_recs m)) by (intros r _ Hr; unfold hp; now rewrite Hr).
+    rewrite has_peer_erase, (has_peer_Ls_true now p _ K). cbn [negb]. rewrite AL.
+    destruct (filter (fun e => ep e =? p) L); [discriminate|reflexivity].
+  - assert (N : find_rec p (filter (hp L) (m_recs m)) = None).
+    { unfold find_rec. destruct (find _ _) eqn:F; [|reflexivity]. apply find_some in F.
+      destruct F as [Hin Hp]. apply filter_In in Hin. destruct Hin as [_ Hh]. apply Z.eqb_eq in Hp.
+      unfold hp in Hh. congruence. }
+    rewrite N. destruct (negb (m_has_peer p (m_ents m))); [reflexivity|]. rewrite AL.
+    destruct (filter (fun e => ep e =? p) L); [reflexivity|discriminate].
+Qed.
+
+Lemma step_peers m : Inv m -> step_ok m OPeers.
+Proof.
+  intros HI. unfold step_ok. cbn [m_step a_step].
+  split; [reflexivity|split; [exact HI|split; [|apply from_old_refl]]]. split; reflexivity.
+Qed.
+
+Lemma step_reopen m : Inv m -> step_ok m OReopen.
+Proof.
+  intros HI. unfold step_ok. cbn [m_step a_step].
+  split; [reflexivity|split; [exact HI|split; [reflexivity|apply from_old_refl]]].
+Qed.
+
+(* clock advance *)
+Lemma step_advance m d : Inv m -> 0 <= d -> m_now m + d < ConnectedAddrTTL -> step_ok m (OAdvance d).
+Proof.
+  intros [Hf Hfar Hr Hn] Hd Hh. unfold step_ok. cbn [m_step a_step].
+  destruct m as [now ents recs]. cbn [m_now m_ents m_recs] in *.
+  unfold a_advance. rewrite !m_abs_eq, mk_norm_eq. cbn [m_now m_ents m_recs a_now a_ents a_recs].
+  assert (LE : Ls (now + d) (Ls now (erase ents)) = Ls (now + d) (erase ents)).
+  { unfold Ls. rewrite filter_filter. apply filter_ext. intros e. unfold live.
+    destruct (Z.ltb_spec (now + d) (eexp e)); [|apply andb_false_r].
+    replace (now <? eexp e) with true; [reflexivity|]. symmetry. apply Z.ltb_lt. lia. }
+  split; [|split; [|split; [reflexivity|intros e' He'; right; exists e'; tauto]]].
+  - rewrite LE. f_equal. apply filter_cond. intros r _ H. unfold hp in *.
+    rewrite <- LE in H. now apply has_peer_Ls_true in H.
+  - constructor; cbn [m_now m_ents m_recs]; auto. lia.
+Qed.
+
+(* GC *)
 Lemma existsb_split {A} (f g : A -> bool) l :
   existsb f l = existsb f (filter g l) || existsb f (filter (fun x => negb (g x)) l).
 Proof.
@@ -667,110 +1081,107 @@ Proof.
     try reflexivity; now rewrite ?orb_true_r.
 Qed.
 
-Lemma step_advance_gc m a d :
-  Rel m a -> 0 <= d -> a_now a + d < ConnectedAddrTTL ->
-  let m1 := fst (m_step m (OAdvance d)) in
-  let a1 := fst (a_step a (OAdvance d)) in
-  Rel (fst (m_step m1 OGC)) (fst (a_step a1 OGC)) /\
-  norm_obs (snd (m_step m1 OGC)) = norm_obs (snd (a_step a1 OGC)).
+Lemma gc_spec m : Inv m ->
+  let L := Ls (m_now m) (erase (m_ents m)) in
+  m_now (m_gc m) = m_now m /\ erase (m_ents (m_gc m)) = L /\ m_recs (m_gc m) = filter (hp L) (m_recs m) /\
+  flags_ok (m_ents (m_gc m)).
 Proof.
-  intros [Hnow Hents Hrecs Hfl Hgood Hrok Hplain Hnn] Hd Hh.
-  destruct m as [mnow ments mrecs]. destruct a as [now ents recs].
-  cbn [m_now m_ents m_recs a_now a_ents a_recs] in *. subst mnow mrecs.
-  cbn [m_step a_step fst snd a_advance]. cbn [m_now m_ents m_recs a_now a_ents a_recs].
-  set (now' := now + d) in *.
-  set (popped := fun x => mheap x && expired_by now' (me x)).
-  assert (P : forall x, In x ments -> negb (popped x) = live now' (me x)).
-  { intros x Hx. unfold popped. rewrite (Hfl x Hx).
-    assert (G : entry_good now (me x)) by (apply Hgood; rewrite <- Hents; now apply in_map).
-    destruct G as [_ Gf]. unfold expired_by, live.
-    destruct (conn (ettl (me x))) eqn:C; cbn [negb andb].
-    - specialize (Gf eq_refl). symmetry. apply Z.ltb_lt. lia.
+  intros [Hf Hfar Hr Hn]. destruct m as [now ents recs]. cbn [m_now m_ents m_recs] in *. cbn zeta.
+  set (popped := fun x => mheap x && expired_by now (me x)).
+  assert (P : forall x, In x ents -> negb (popped x) = live now (me x)).
+  { intros x Hx. unfold popped. rewrite (Hf x Hx).
+    assert (G : far (me x)) by (apply Hfar; now apply in_map).
+    unfold expired_by, live. destruct (conn (ettl (me x))) eqn:C; cbn [negb andb].
+    - specialize (G C). symmetry. apply Z.ltb_lt. lia.
     - now rewrite negb_involutive. }
-  assert (E : erase (filter (fun x => negb (popped x)) ments) = filter (live now') ents).
-  { rewrite (filter_ext_in _ (fun x => live now' (me x)) ments P).
-    rewrite <- Hents. apply (map_filter_comm me (live now')). }
-  set (ents' := filter (live now') ents) in *.
-  assert (RQ : filter (fun r => negb (m_has_peer (rp r) (filter popped ments) &&
-                                      negb (m_has_peer (rp r) (filter (fun x => negb (popped x)) ments)))) recs
-               = filter (fun r => has_peer (rp r) ents') recs).
-  { apply filter_ext_in. intros r Hr. rewrite (has_peer_erase _ (filter (fun x => negb (popped x)) ments)), E.
-    destruct (has_peer (rp r) ents') eqn:K; [now rewrite andb_false_r|].
-    assert (H0 := Hrok r Hr). rewrite <- Hents, <- has_peer_erase in H0. unfold m_has_peer in H0.
-    rewrite (existsb_split _ (fun x => negb (popped x))) in H0.
-    fold (m_has_peer (rp r) (filter (fun x => negb (popped x)) ments)) in H0.
-    rewrite has_peer_erase, E, K in H0. cbn [orb] in H0.
-    rewrite (filter_ext _ popped) in H0 by (intros x; apply negb_involutive).
-    unfold m_has_peer. rewrite H0. reflexivity. }
-  assert (G : m_gc (mkMB now' ments recs) =
-              mkMB now' (filter (fun x => negb (popped x)) ments)
-                   (filter (fun r => negb (m_has_peer (rp r) (filter popped ments) &&
-                                           negb (m_has_peer (rp r) (filter (fun x => negb (popped x)) ments)))) recs))
+  assert (E : erase (filter (fun x => negb (popped x)) ents) = Ls now (erase ents)).
+  { rewrite (filter_ext_in _ (fun x => live now (me x)) ents P). apply (map_filter_comm me (live now)). }
+  assert (G : m_gc (mkMB now ents recs) =
+              mkMB now (filter (fun x => negb (popped x)) ents)
+                   (filter (fun r => negb (m_has_peer (rp r) (filter popped ents) &&
+                                           negb (m_has_peer (rp r) (filter (fun x => negb (popped x)) ents)))) recs))
     by reflexivity.
-  rewrite G, RQ. clear G.
-  assert (G2 : a_advance (mkA now ents recs) d = mkA now' ents' (filter (fun r => has_peer (rp r) ents') recs))
-    by reflexivity.
-  rewrite G2. clear G2. cbn [fst snd].
-  split.
-  - constructor; cbn [m_now m_ents m_recs a_now a_ents a_recs]; auto.
-    + now apply flags_filter.
-    + intros e He. unfold ents' in He. apply filter_In in He. destruct He as [He Hl].
-      split; [exact Hl|]. apply (Hgood e He).
-    + intros r Hr. apply filter_In in Hr. tauto.
-    + eapply plain_sub; [exact Hplain|]. intros r Hr. now apply filter_In in Hr.
-    + unfold now'. lia.
-  - cbn [norm_obs m_ents m_recs a_ents a_recs]. unfold zlen'. rewrite <- E. unfold erase. now rewrite map_length.
+  rewrite G. cbn [m_now m_ents m_recs]. split; [reflexivity|split; [exact E|split; [|now apply flags_filter]]].
+  apply filter_ext_in. intros r Hin. rewrite (has_peer_erase _ (filter (fun x => negb (popped x)) ents)), E.
+  unfold hp. destruct (has_peer (rp r) (Ls now (erase ents))) eqn:K; [now rewrite andb_false_r|].
+  assert (H0 := Hr r Hin). rewrite <- has_peer_erase in H0. unfold m_has_peer in H0.
+  rewrite (existsb_split _ (fun x => negb (popped x))) in H0.
+  fold (m_has_peer (rp r) (filter (fun x => negb (popped x)) ents)) in H0.
+  rewrite has_peer_erase, E, K in H0. cbn [orb] in H0.
+  rewrite (filter_ext _ popped) in H0 by (intros x; apply negb_involutive).
+  unfold m_has_peer. rewrite H0. reflexivity.
 Qed.
 
-(* ---- the hypothesis on histories, and the trace theorem ----------------------- *)
-(* [calm now ops]: no negative UpdateAddrs TTL, signed records list plain
-   transport addresses, every clock advance is non-negative, stays below
-   ConnectedAddrTTL in total, and is directly followed by a GC run *)
-Fixpoint calm (now : Z) (ops : list op) : bool :=
+Lemma step_gc m : Inv m -> step_ok m OGC.
+Proof.
+  intros HI. unfold step_ok. cbn [m_step a_step].
+  destruct (gc_spec m HI) as [Gn [Ge [Gr Gf]]]. cbn zeta in *.
+  set (L := Ls (m_now m) (erase (m_ents m))) in *.
+  assert (A : m_abs (m_gc m) = m_abs m).
+  { rewrite !m_abs_eq, Gn, Ge, Gr. fold L. unfold L at 1 2. rewrite Ls_idem. fold L. f_equal.
+    apply filter_cond. auto. }
+  destruct HI as [Hf Hfar Hr Hn].
+  split; [now rewrite A|split; [|split]].
+  - constructor; try (rewrite Gn); auto.
+    + intros e He. rewrite Ge in He. unfold L, Ls in He. apply filter_In in He. now apply Hfar.
+    + intros r Hin. rewrite Gr in Hin. apply filter_In in Hin. rewrite Ge. tauto.
+  - cbn [obs_rel norm_obs]. rewrite m_abs_eq. cbn [a_ents a_recs]. fold L. unfold zlen'.
+    rewrite <- Ge at 1. unfold erase. rewrite map_length. now rewrite Gr.
+  - intros e' He'. left. rewrite Ge in He'. rewrite Gn. unfold L, Ls in He'. apply filter_In in He'. tauto.
+Qed.
+
+Lemma gc_all_live m : Inv m -> forall e', In e' (erase (m_ents (m_gc m))) -> live (m_now (m_gc m)) e' = true.
+Proof.
+  intros HI e' He'. destruct (gc_spec m HI) as [Gn [Ge _]]. cbn zeta in *. rewrite Ge in He'. rewrite Gn.
+  unfold Ls in He'. apply filter_In in He'. tauto.
+Qed.
+
+(* every operation *)
+Lemma step_all m o : Inv m -> op_ok (m_now m) o -> step_ok m o.
+Proof.
+  intros HI Ho. destruct o.
+  - now apply step_add.
+  - now apply step_set.
+  - now apply step_update.
+  - now apply step_clear.
+  - now apply step_consume.
+  - now apply step_addrs.
+  - now apply step_peers.
+  - now apply step_getrec.
+  - destruct Ho. now apply step_advance.
+  - now apply step_gc.
+  - now apply step_reopen.
+Qed.
+
+(* ---- histories: the clock moves forward and stays below ConnectedAddrTTL ---------- *)
+Fixpoint clock_ok (now : Z) (ops : list op) : bool :=
   match ops with
   | [] => true
-  | OAdvance d :: OGC :: r => (0 <=? d) && (now + d <? ConnectedAddrTTL) && calm (now + d) r
-  | o :: r => op_calm o && calm now r
+  | OAdvance d :: r => (0 <=? d) && (now + d <? ConnectedAddrTTL) && clock_ok (now + d) r
+  | _ :: r => clock_ok now r
   end.
 
-Definition norm_pair (ox : op * obs) : op * obs := (fst ox, norm_obs (snd ox)).
-
-Lemma a_step_now a o : op_calm o = true -> a_now (fst (a_step a o)) = a_now a.
+Lemma m_step_now m o : m_now (fst (m_step m o)) = match o with OAdvance d => m_now m + d | _ => m_now m end.
 Proof.
-  assert (N : forall n e r, a_now (mk_norm n e r) = n) by (intros; unfold mk_norm; destruct (normalize _ _ _); reflexivity).
-  destruct o; cbn [op_calm a_step fst]; intros H; try reflexivity; try discriminate.
-  all: try (unfold a_add; destruct (_ <=? _); [reflexivity|apply N]).
-  all: try (destruct bad; cbn [fst]; [reflexivity|]; unfold a_consume;
-            destruct (match find_rec _ _ with Some _ => _ | None => _ end); cbn [fst]; [reflexivity|apply N]).
+  destruct o; cbn [m_step fst]; try reflexivity.
+  all: try (destruct bad; [reflexivity|]; unfold m_consume;
+            destruct (match find_rec _ _ with Some _ => _ | None => _ end); reflexivity).
 Qed.
 
-Lemma trace_eq_n n : forall ops m a, (length ops <= n)%nat -> Rel m a -> calm (a_now a) ops = true ->
-  map norm_pair (m_trace m ops) = map norm_pair (a_trace a ops).
+Lemma clock_ok_step now o r : clock_ok now (o :: r) = true ->
+  op_ok now o /\ clock_ok (match o with OAdvance d => now + d | _ => now end) r = true.
 Proof.
-  induction n as [|n IH]; intros ops m a Hlen HR Hc.
-  - destruct ops; [reflexivity|cbn in Hlen; lia].
-  - destruct ops as [|o r]; [reflexivity|].
-    assert (Generic : op_calm o = true -> calm (a_now a) r = true ->
-              map norm_pair (m_trace m (o :: r)) = map norm_pair (a_trace a (o :: r))).
-    { intros Ho Hr. destruct (step_calm m a o HR Ho) as [HR' Hobs].
-      cbn [m_trace a_trace]. destruct (m_step m o) as [m' x] eqn:Em. destruct (a_step a o) as [a' y] eqn:Ea.
-      cbn [fst snd] in *. cbn [map]. unfold norm_pair at 1 3. cbn [fst snd]. rewrite Hobs. f_equal.
-      apply IH; [cbn in Hlen; lia|exact HR'|].
-      replace (a_now a') with (a_now a); [exact Hr|].
-      pose proof (a_step_now a o Ho) as H. rewrite Ea in H. now symmetry. }
-    destruct o; try (cbn [calm] in Hc; apply andb_true_iff in Hc; destruct Hc as [H1 H2]; now apply Generic).
-    (* OAdvance *)
-    destruct r as [|o2 r2]; [cbn in Hc; discriminate|].
-    destruct o2; try (cbn in Hc; discriminate).
-    cbn [calm] in Hc. apply andb_true_iff in Hc. destruct Hc as [Hc H3].
-    apply andb_true_iff in Hc. destruct Hc as [H1 H2]. apply Z.leb_le in H1. apply Z.ltb_lt in H2.
-    destruct (step_advance_gc m a d HR H1 H2) as [HR' Hobs].
-    cbn [m_trace a_trace]. cbn [m_step a_step] in *. cbn [fst snd] in *.
-    cbn [map]. unfold norm_pair at 1 2 4 5. cbn [fst snd norm_obs].
-    f_equal. 
-    destruct (m_gc _) eqn:Eg. 
-    cbn [fst snd] in *. f_equal; [now rewrite <- Eg in *; f_equal|].
-    apply IH; [cbn in Hlen; lia|exact HR'|].
-    replace (a_now (a_advance a d)) with (a_now a + d); [exact H3|].
-    unfold a_advance, mk_norm. destruct (normalize _ _ _). reflexivity.
+  destruct o; cbn [clock_ok op_ok]; try tauto.
+  rewrite !andb_true_iff, Z.leb_le, Z.ltb_lt. tauto.
+Qed.
+
+(* the model's state is always the abstraction of ... itself: a_run on the abstraction *)
+Lemma abs_run ops : forall m, Inv m -> clock_ok (m_now m) ops = true ->
+  a_run (m_abs m) ops = m_abs (m_run m ops) /\ Inv (m_run m ops).
+Proof.
+  induction ops as [|o r IH]; intros m HI Hc; [split; [reflexivity|exact HI]|].
+  destruct (clock_ok_step _ _ _ Hc) as [Ho Hr]. pose proof (step_all m o HI Ho) as S.
+  unfold step_ok in S. cbn [a_run m_run]. pose proof (m_step_now m o) as Hn.
+  destruct (m_step m o) as [m' x]. destruct (a_step (m_abs m) o) as [a' e]. cbn [fst] in *.
+  destruct S as [-> [HI' _]]. apply IH; [exact HI'|]. now rewrite Hn.
 Qed.
